@@ -27,8 +27,8 @@ Theorem C04_fragment_roundtrip :
 Proof. exact single_rt. Qed.
 
 (** ... and so does every well-formed block definition (DEFCAL, DEFCAL MEASURE, DEFCIRCUIT with a
-    non-empty body of fragment instructions, DEFFRAME, DEFWAVEFORM), as [Instruction::to_quil]
-    prints it. *)
+    non-empty body of fragment instructions, DEFFRAME, DEFWAVEFORM, DEFGATE in its four forms),
+    as [Instruction::to_quil] prints it. *)
 Theorem C04_item_roundtrip :
   forall it : item, wf_item it = true -> p_items Repaired (print_item it) = Ok [it] [].
 Proof. exact single_item_rt. Qed.
